@@ -73,10 +73,11 @@ def oblige(out: CaseOut, d: Discharger, enc: Encoding, prop, label, formulas, on
             out.findings.append({'kind': kind, 'program': program, 'label': label, 'replay': path,
                                  'detail': detail, 'hint': out.name, 'confkw': out.confkw})
             return False
-        try:
-            os.unlink(path)
-        except OSError:
-            pass
+        if not os.environ.get('BEARVERIF_KEEP'):
+            try:
+                os.unlink(path)
+            except OSError:
+                pass
         U = enc.U
         cx = m.eval(U.cls(enc.x), model_completion=True)
         lx = m.eval(U.len(enc.x), model_completion=True)
